@@ -30,6 +30,8 @@ TRUSTED_BASE = BASE_TRUSTED + [
     'paraxial FNO/XPD/EPD/magnification are inputs of the F-number kernels; their correctness is C01/C04',
 ]
 RULE = ('kernel cases: seeded random PSF images (both paddings), paraxial data of both conjugates; system cases: '
+        'cut-off/working F-number: both conjugates with object and/or image space in air or an immersion medium (n 1.2..1.7; '
+        'fixed relays + lensgen.immerse), magnification from an independent y-nu matrix trace; '
         'pupil sampling 4..8 (+11,21 for the mask), grid = sampling+0..5 (all parities), OPD from 0 to tens of waves '
         '(defocus/spherical/random), intensities uniform / apodised / partly zero, plus real lenses (generated, '
         'paraboloid, finite conjugates) traced by optiland; mask consistency for every sampling 16..64 (16..256 thorough); '
@@ -143,14 +145,17 @@ def paraboloid(fno=5.0, clip=None, defocus=0.0, wavelength=0.55):
     return o
 
 
-def finite_singlet(obj=150.0, epd=6.0, img=None):
+def finite_singlet(obj=150.0, epd=6.0, img=None, obj_n=None, img_n=None):
+    """biconvex singlet relaying a finite object; obj_n / img_n put the object / image space in an immersion medium"""
     from optiland.optic import Optic
     from optiland.materials import IdealMaterial
     o = Optic()
-    o.add_surface(index=0, radius=np.inf, thickness=obj)
+    okw = {'material': IdealMaterial(n=obj_n, k=0.0)} if obj_n else {}
+    ikw = {'material': IdealMaterial(n=img_n, k=0.0)} if img_n else {}
+    o.add_surface(index=0, radius=np.inf, thickness=obj, **okw)
     o.add_surface(index=1, radius=60.0, thickness=4.0, material=IdealMaterial(n=1.5, k=0.0), is_stop=True)
-    o.add_surface(index=2, radius=-60.0, thickness=img if img else 100.0)
-    o.add_surface(index=3)
+    o.add_surface(index=2, radius=-60.0, thickness=img if img else 100.0, **ikw)
+    o.add_surface(index=3, **ikw)
     o.set_aperture('EPD', epd)
     o.set_field_type('object_height')
     o.add_field(y=0.0)
@@ -161,6 +166,67 @@ def finite_singlet(obj=150.0, epd=6.0, img=None):
         except Exception:   # noqa
             pass
     return o
+
+
+def independent_magnification(o, w):
+    """lateral magnification m = n u / (n' u') from a y-nu matrix trace of an axial ray through the prescription
+    (vertex curvatures, vertex separations, indices at wavelength w); does not call optiland.paraxial.
+    returns (m, n_object, n_image) or None when the lens has a surface this trace does not model"""
+    ss = o.surface_group.surfaces
+    n = float(np.ravel(ss[0].material_post.n(w))[0])
+    n0 = n
+    y, u = 0.0, 0.01
+    u0 = u
+    z = float(np.ravel(ss[0].geometry.cs.z)[0])
+    for s_ in ss[1:-1]:
+        cs = s_.geometry.cs
+        if any(abs(float(np.ravel(getattr(cs, a))[0])) > 0 for a in ('x', 'y', 'rx', 'ry')):
+            return None
+        zk = float(np.ravel(cs.z)[0])
+        y += u * (zk - z)
+        z = zk
+        R = float(getattr(s_.geometry, 'radius', np.inf))
+        c = 0.0 if not math.isfinite(R) else 1.0 / R
+        n2 = float(np.ravel(s_.material_post.n(w))[0])
+        if s_.is_reflective:
+            n2 = -n
+        u = (n * u - y * c * (n2 - n)) / n2
+        n = n2
+    if u == 0 or not math.isfinite(u):
+        return None
+    return n0 * u0 / (n * u), n0, abs(n)
+
+
+def media_class(o):
+    """input class of a lens for the cut-off clause: conjugate x which of object/image space is not air"""
+    w = o.primary_wavelength
+    ss = o.surface_group.surfaces
+    n0 = float(np.ravel(ss[0].material_post.n(w))[0])
+    ni = float(np.ravel(ss[-1].material_post.n(w))[0])
+    conj = 'infinite' if o.object_surface.is_infinite else 'finite'
+    med = {(False, False): 'air', (True, False): 'object-immersed', (False, True): 'image-immersed',
+           (True, True): 'both-immersed'}[(abs(n0 - 1) > 1e-9, abs(ni - 1) > 1e-9)]
+    return conj + '/' + med
+
+
+def immersed_lenses(rng, k):
+    """finite-conjugate lenses whose object and/or image space is an immersion medium (index 1.2..1.7): two fixed relays
+    (every class is present whatever the seed) plus k generated prescriptions (lensgen.gen_spec + lensgen.immerse)"""
+    import lensgen
+    out = [('relay-object-immersed', finite_singlet(obj=260.0, epd=5.0, obj_n=1.45)),
+           ('relay-image-in-water', finite_singlet(obj=400.0, epd=5.0, img_n=1.336)),
+           ('relay-both-immersed', finite_singlet(obj=400.0, epd=5.0, obj_n=1.40, img_n=1.336))]
+    tries = 0
+    while len(out) < k + 3 and tries < 6 * k + 10:
+        tries += 1
+        spec = lensgen.gen_spec(rng, nsurf=rng.choice([1, 2, 3, 4]), allow=['plane', 'standard', 'conic'], finite_object=True,
+                                mirrors=False, decenter=False)
+        lensgen.immerse(spec, rng)
+        try:
+            out.append((f'immersed{tries}', lensgen.build(spec)))
+        except Exception:    # noqa
+            continue
+    return out
 
 
 def oracle_psf(n, grid, opd, inten, p):
@@ -551,8 +617,10 @@ def check_mask(ctx):
 
 
 def check_cutoff(ctx):
-    """cut-off frequency of both MTF classes on real lenses against 1/(lambda_mm * working F-number), the working F-number
-    evaluated by the translated _get_fno kernel in Coq from the lens' paraxial data"""
+    """cut-off frequency of both MTF classes on real lenses against 1/(lambda_mm * working F-number).  The working F-number
+    is evaluated by the translated _get_fno kernel in Coq from the paraxial FNO and pupil diameters of the lens and a lateral
+    magnification computed INDEPENDENTLY of optiland.paraxial (y-nu matrix trace, m = n u / (n' u')); lenses: both
+    conjugates, object and/or image space in air or in an immersion medium"""
     _quiet()
     import lensgen
     from optiland.mtf import FFTMTF, GeometricMTF
@@ -563,42 +631,62 @@ def check_cutoff(ctx):
             lenses.append((f'gen{t}', lensgen.build(lensgen.simple_spec(lr, n=lr.choice([1, 2, 3])))))
         except Exception:   # noqa
             pass
-    lines, meta = [], []
+    lenses += immersed_lenses(random.Random(ctx.seed + 6), ctx.n(8, 60))
+    lines, meta, hist = [], [], {}
     for name, o in lenses:
         try:
             px = o.paraxial
-            fno, inf = float(px.FNO()), bool(o.object_surface.is_infinite)
-            xpd, epd, mag = (float(px.XPD()), float(px.EPD()), float(px.magnification())) if not inf else (1.0, 1.0, 0.0)
             lam = float(o.primary_wavelength)
+            fno, inf = float(px.FNO()), bool(o.object_surface.is_infinite)
+            cls = media_class(o)
+            if inf:
+                xpd, epd, mag, mimpl, n0, ni = 1.0, 1.0, 0.0, 0.0, 1.0, 1.0
+            else:
+                im = independent_magnification(o, lam)
+                if im is None:
+                    continue
+                mag, n0, ni = im
+                xpd, epd, mimpl = float(px.XPD()), float(px.EPD()), float(px.magnification())
             fm = FFTMTF(o, fields=[(0.0, 0.0)], num_rays=6, grid_size=8)
             gm = GeometricMTF(o, fields=[(0.0, 0.0)], num_rays=6, num_points=4)
         except Exception as e:   # noqa
             ctx.notes.append(f'cutoff: lens {name} skipped ({type(e).__name__})')
             continue
-        if not all(map(math.isfinite, (fno, xpd, epd, mag))) or fno == 0:
+        if not all(map(math.isfinite, (fno, xpd, epd, mag, float(fm.max_freq), float(gm.max_freq)))) or fno == 0 or xpd == 0:
             continue
+        hist[cls] = hist.get(cls, 0) + 1
         wf = f'(k_mtf_fno FOps {fh(fno)} {"true" if inf else "false"} {fh(xpd)} {fh(epd)} {fh(mag)})'
         cut = f'(PrimFloat.div 1 (PrimFloat.mul (PrimFloat.mul {fh(lam)} {fh(1e-3)}) {wf}))'
-        lines.append(f'close {fh(1e-12)} {cut} {fh(fm.max_freq)}')
-        lines.append(f'close {fh(1e-12)} {cut} {fh(gm.max_freq)}')
-        meta.append((name, inf, fno, float(fm.FNO), float(fm.max_freq), float(gm.max_freq)))
-    res = vlib.run_cases('c11cut', 'From OV Require Import Gen.PsfMtf.', ['Eval vm_compute in (report (' + ' :: '.join(lines) + ' :: nil)).\n'])
-    if res[0][0] == 'error':
-        return {'name': 'cutoff', 'n': 0, 'error': res[0][1]}
+        lines.append(f'close {fh(1e-9)} {cut} {fh(fm.max_freq)}')
+        lines.append(f'close {fh(1e-9)} {cut} {fh(gm.max_freq)}')
+        wfi = fno if inf else fno * (1 + abs(mag) / (xpd / epd))
+        meta.append({'lens': name, 'class': cls, 'object_infinite': inf, 'paraxial_FNO': fno, 'XPD': xpd, 'EPD': epd,
+                     'magnification_independent': mag, 'magnification_impl': mimpl, 'object_index': n0, 'image_index': ni,
+                     'working_FNO_expected': wfi, 'working_FNO_impl': float(fm.FNO), 'expected': 1.0 / (lam * 1e-3 * wfi),
+                     'fft_max_freq': float(fm.max_freq), 'geo_max_freq': float(gm.max_freq)})
+    chunk = 8     # report lists at most 10 failing indices
+    bodies = ['Eval vm_compute in (report (' + ' :: '.join(lines[s_:s_ + chunk]) + ' :: nil)).\n' for s_ in range(0, len(lines), chunk)]
+    res = vlib.run_cases('c11cut', 'From OV Require Import Gen.PsfMtf.', bodies)
     dis = []
-    for i in res[0][2]:
-        name, inf, fno, wfno, fmax, gmax = meta[i // 2]
-        cls = 'FFTMTF' if i % 2 == 0 else 'GeometricMTF'
-        dis.append({'kind': 'cutoff-fno', 'site': cls + '.__init__', 'lens': name, 'object_infinite': inf, 'paraxial_FNO': fno,
-                    'working_FNO': wfno, 'max_freq': fmax if i % 2 == 0 else gmax, 'expected': fmax,
-                    'uses_paraxial_fno': bool(abs((gmax if i % 2 else fmax) * fno - fmax * wfno) < 1e-9 * abs(fmax * wfno)),
-                    'violates_property': True})
-    if res[0][1] > len(res[0][2]):
-        dis.append({'kind': 'cutoff-fno', 'site': 'GeometricMTF.__init__', 'object_infinite': False, 'uses_paraxial_fno': True,
-                    'what': f'{res[0][1] - len(res[0][2])} further lenses', 'violates_property': True})
-    return {'name': 'cutoff', 'n': len(meta) * 2, 'nontrivial': sum(1 for m in meta if not m[1]), 'disagreements': dis,
-            'samples': [{'lens': m[0], 'infinite': m[1], 'FNO': m[2], 'working_FNO': m[3], 'fft_max_freq': m[4], 'geo_max_freq': m[5]}
-                        for m in meta[:2]]}
+    for bi, rr in enumerate(res):
+        if rr[0] == 'error':
+            return {'name': 'cutoff', 'n': 0, 'error': rr[1]}
+        for i in rr[2]:
+            li = bi * chunk + i
+            mt = meta[li // 2]
+            site = 'FFTMTF.__init__' if li % 2 == 0 else 'GeometricMTF.__init__'
+            got = mt['fft_max_freq'] if li % 2 == 0 else mt['geo_max_freq']
+            dis.append(dict(mt, kind='cutoff-fno', site=site, max_freq=got,
+                            uses_paraxial_fno=bool(abs(got * mt['paraxial_FNO'] - mt['expected'] * mt['working_FNO_expected'])
+                                                   < 1e-9 * abs(mt['expected'] * mt['working_FNO_expected'])),
+                            magnification_agrees=bool(abs(mt['magnification_impl'] - mt['magnification_independent'])
+                                                      <= 1e-9 * abs(mt['magnification_independent'])),
+                            violates_property=True))
+    dis = dis[:6]
+    return {'name': 'cutoff', 'n': len(meta) * 2, 'nontrivial': sum(1 for m in meta if not m['object_infinite']), 'disagreements': dis,
+            'histogram': hist,
+            'samples': [{k: m[k] for k in ('lens', 'class', 'paraxial_FNO', 'magnification_independent', 'working_FNO_expected',
+                                           'fft_max_freq', 'geo_max_freq')} for m in (meta[:1] + [m for m in meta if 'immersed' in m['class']][:1])]}
 
 
 def check_oracle(ctx):
@@ -676,11 +764,16 @@ def oracle_lens(o, n, grid, perfect=False, name='lens'):
     # working F-number, stated independently of _get_fno
     px = o.paraxial
     wf = float(px.FNO())
+    im = None
     if not o.object_surface.is_infinite:
-        wf *= 1 + abs(float(px.magnification())) / (float(px.XPD()) / float(px.EPD()))
-    if abs(float(m.FNO) - wf) > 1e-9 * abs(wf) or abs(float(m.max_freq) - 1.0 / (lam * 1e-3 * wf)) > 1e-9 / (lam * 1e-3 * abs(wf)):
-        out.append({'kind': 'working-fno', 'site': 'FFTMTF._get_fno', 'lens': name, 'FNO': float(m.FNO), 'expected': wf,
-                    'max_freq': float(m.max_freq)})
+        im = independent_magnification(o, lam)          # matrix optics, not Paraxial.magnification
+        mg = im[0] if im else float(px.magnification())
+        wf *= 1 + abs(mg) / (float(px.XPD()) / float(px.EPD()))
+    if math.isfinite(wf) and wf != 0 and (abs(float(m.FNO) - wf) > 1e-9 * abs(wf) or abs(float(m.max_freq) - 1.0 / (lam * 1e-3 * wf)) > 1e-9 / (lam * 1e-3 * abs(wf))):
+        out.append({'kind': 'working-fno', 'site': 'FFTMTF._get_fno', 'lens': name, 'class': media_class(o), 'FNO': float(m.FNO),
+                    'expected': wf, 'max_freq': float(m.max_freq),
+                    'magnification_impl': (float(px.magnification()) if im else None),
+                    'magnification_independent': (im[0] if im else None)})
     # frequency axis: cut-off index num_rays must sit at 1/(lambda_mm * working FNO)
     dx = float(m._get_mtf_units())
     want = 1.0 / (lam * 1e-3 * float(m.FNO))
@@ -758,6 +851,11 @@ def search(ctx, broken, disagreements):
         add(oracle_lens(finite_singlet(), 16, 32, name='finite-singlet'))
     except Exception as e:     # noqa
         ctx.notes.append(f'search: finite singlet raised {type(e).__name__}')
+    for name, o in immersed_lenses(random.Random(ctx.seed + 103), ctx.n(4, 30)):
+        try:
+            add(oracle_lens(o, 16, 32, name=name))
+        except Exception:    # noqa
+            continue
     for t in range(ctx.n(10, 80)):
         try:
             o = lensgen.build(lensgen.simple_spec(r, n=r.choice([1, 2, 3, 4, 6])))
